@@ -167,6 +167,9 @@ def gen_project(rng, k=None):
     if pick(rng, k.p_gvac):
         a = day()
         p["leaves"] = [["holiday", a, None if pick(rng, 0.6) else a + rng.choice([1, 2]) * D]]
+        if pick(rng, 0.35):
+            # a company event that ends during the working day: the slot that begins at its end is working time again
+            p["leaves"] = [["holiday", a, a + rng.choice([0, 1]) * D + rng.choice([10, 12, 13, 15]) * H]]
     if pick(rng, k.p_shift):
         wh = gen_hours(rng, G, k.aligned_only)
         if wh:
